@@ -3,6 +3,7 @@ mod checks_e1;
 mod checks_e2;
 mod e1;
 mod e2;
+mod e3;
 mod e4;
 mod e5;
 mod c06;
@@ -41,6 +42,10 @@ fn main() {
             let serve = args.iter().any(|a| a == "--serve");
             session::child_main(dir, serve);
         }
+        "recover-dump" => {
+            let dir = std::path::PathBuf::from(args.get(2).unwrap_or_else(|| usage()));
+            e3::recover_dump_main(dir);
+        }
         "e2" => {
             let mode = args.get(2).unwrap_or_else(|| usage()).clone();
             let seed: u64 = args.get(3).and_then(|s| s.parse().ok()).unwrap_or(1);
@@ -59,6 +64,7 @@ fn main() {
                 "C08" => checks_e1::run("C08", &tier, seed),
                 "C09" => checks_e1::run("C09", &tier, seed),
                 "C12" => e6::run(&tier, seed),
+                "C04" => e3::run(&tier, seed),
                 "C13" => checks_e4::run("C13", &tier, seed),
                 "C20" => checks_e5::run(
                     checks_e5::Plan {
